@@ -210,7 +210,7 @@ struct fdent {
     unsigned mode;
 };
 
-enum { A_FAULT = 1, A_SHORT, A_KILL, A_CLONEOK, A_NOTE };
+enum { A_FAULT = 1, A_SHORT, A_KILL, A_CLONEOK, A_NOTE, A_RETVAL };
 enum { L_ONE = 1, L_MINUS1, L_HALF, L_RAND, L_CAP };
 
 struct rule {
@@ -226,6 +226,7 @@ struct rule {
     int when_exit; /* for kill: at exit stop */
     int action;
     int err;
+    long retval;
     int lenpol; unsigned long lencap;
     int role;    /* -1 any */
     int minlen;  /* only shorten when len > minlen */
@@ -483,6 +484,7 @@ static void parse_rule(char *line)
         else if (!strcmp(k, "when")) r->when_exit = !strcmp(v, "exit");
         else if (!strcmp(k, "errno")) r->err = atoi(v);
         else if (!strcmp(k, "minlen")) r->minlen = atoi(v);
+        else if (!strcmp(k, "val")) r->retval = atol(v);
         else if (!strcmp(k, "role")) r->role = role_by_name(v);
         else if (!strcmp(k, "action")) {
             if (!strcmp(v, "fault")) r->action = A_FAULT;
@@ -490,6 +492,7 @@ static void parse_rule(char *line)
             else if (!strcmp(v, "kill")) r->action = A_KILL;
             else if (!strcmp(v, "cloneok")) r->action = A_CLONEOK;
             else if (!strcmp(v, "note")) r->action = A_NOTE;
+            else if (!strcmp(v, "retval")) r->action = A_RETVAL;
             else die("bad action %s", v);
         } else if (!strcmp(k, "len")) {
             if (!strcmp(v, "one")) r->lenpol = L_ONE;
@@ -793,6 +796,14 @@ static int apply_rules_enter(struct thr *t, struct user_regs_struct *regs, const
             }
             break;
         }
+        case A_RETVAL:
+            /* the call is not executed; it "returns" val (e.g. 0 = end of file for copy_file_range/read) */
+            p->rule = i; r->applied++;
+            regs->orig_rax = (unsigned long)-1;
+            ptrace(PTRACE_SETREGS, t->tid, 0, regs);
+            p->force = 1; p->force_ret = r->retval;
+            *act = "retval"; *rid = r->id;
+            break;
         case A_CLONEOK:
             p->rule = i; r->applied++;
             regs->orig_rax = (unsigned long)-1;
@@ -954,7 +965,7 @@ static void handle_syscall_stop(struct thr *t)
                 regs.rax = (unsigned long)ret;
                 ptrace(PTRACE_SETREGS, t->tid, 0, &regs);
             }
-            act = p->force ? "cloneok" : "fault";
+            act = p->force ? "forced" : "fault";
         } else if (p->shortened) act = "short";
         if (ret == -EMFILE || ret == -ENFILE) n_emfile++;
         /* fd bookkeeping */
